@@ -393,6 +393,11 @@ func (g *gen) addList(sc *scope) {
 	if unkeyed {
 		g.feat("list-unkeyed")
 		g.addLeaf(c, leafOpts{})
+		if g.chance(25, "unkeyed-ordered") {
+			// legal on state lists too (RFC 7950 7.7.7: ignored there), and generators must cope with it
+			st.add("ordered-by", "user")
+			g.feat("list-unkeyed-ordered-by-user")
+		}
 	} else {
 		keySt := st.add("key", "")
 		nk := 1 + g.weighted("list-nkeys", 58, 30, 12)
